@@ -17,7 +17,7 @@
 namespace Secp.IR
 
 inductive Expr where
-  | var (i : Nat)
+  | var (i : Nat)                      -- de Bruijn style: i-th most recently defined value (0 = newest)
   | const (n : Nat)
   | add (w : Nat) (a b : Expr)
   | sub (w : Nat) (a b : Expr)
@@ -45,7 +45,7 @@ structure Kernel where
   name : String
   inW : List Nat          -- bit width of each input
   aliasSafe : Bool        -- no parameter slot is read after the same receiver slot was written
-  body : List Expr        -- SSA: entry j defines variable (inW.length + j)
+  body : List Expr        -- SSA: each entry may refer to earlier entries and inputs by relative index
   outs : List Expr
   deriving Repr, Inhabited
 
@@ -101,17 +101,18 @@ def evalN (env : List Nat) : Expr → Nat
   | .ctMin a b => min (evalN env a) (evalN env b)
   | .accAdd a b => evalN env a + evalN env b
 
-/-- run the SSA body: each entry is appended to the environment -/
+/-- run the SSA body: each entry is pushed on the front of the environment
+    (so `.var 0` is the value just defined; the inputs sit at the bottom, last input first) -/
 def runBody (ev : List Nat → Expr → Nat) : List Expr → List Nat → List Nat
   | [], env => env
-  | e :: rest, env => runBody ev rest (env ++ [ev env e])
+  | e :: rest, env => runBody ev rest (ev env e :: env)
 
 def Kernel.runW (k : Kernel) (inputs : List Nat) : List Nat :=
-  let env := runBody evalW k.body inputs
+  let env := runBody evalW k.body inputs.reverse
   k.outs.map (evalW env)
 
 def Kernel.runN (k : Kernel) (inputs : List Nat) : List Nat :=
-  let env := runBody evalN k.body inputs
+  let env := runBody evalN k.body inputs.reverse
   k.outs.map (evalN env)
 
 /-- number of bits needed for n (0 for 0) -/
@@ -195,11 +196,11 @@ def bndBody : List Expr → List Ival → Option (List Ival)
   | [], β => some β
   | e :: rest, β => do
       let r ← bnd β e
-      bndBody rest (β ++ [r])
+      bndBody rest (r :: β)
 
-/-- bounds of the outputs, given bounds of the inputs -/
+/-- bounds of the outputs, given bounds of the inputs (in input order) -/
 def Kernel.check (k : Kernel) (βin : List Ival) : Option (List Ival) := do
-  let β ← bndBody k.body βin
+  let β ← bndBody k.body βin.reverse
   k.outs.mapM (bnd β)
 
 /-- default input bounds: the full range of each input's type -/
